@@ -6,6 +6,7 @@ import (
 	"errors"
 	"fmt"
 	"math/big"
+	"os"
 	"testing"
 	"testing/synctest"
 	"time"
@@ -38,6 +39,11 @@ type PlaySc struct {
 	Map     [][2]int   `json:"map,omitempty"`    // (track, port) pairs
 	Default int        `json:"default_port"`     // port for key -1; -1 = none
 	Ports   []PortCfg  `json:"ports"`
+	// Twice plays the same TracksReader a second time: each playback must be complete.
+	Twice bool `json:"twice,omitempty"`
+	// ViaFile reads the tracks with ReadTracks(path) from a real temporary file instead of
+	// ReadTracksFrom(reader).
+	ViaFile bool `json:"via_file,omitempty"`
 }
 
 type playWorld struct{}
@@ -154,6 +160,8 @@ func (playWorld) Gen(seed uint64, tier string) core.Scenario {
 		}
 		s.Ports = append(s.Ports, pc)
 	}
+	s.Twice = r.Chance(1, 6)
+	s.ViaFile = r.Chance(1, 10)
 	s.Default = -1
 	if r.Chance(1, 3) {
 		s.Mode = "play"
@@ -419,7 +427,7 @@ func (s *PlaySc) Run(env *core.Env, st *core.Stats) (vs []core.Violation) {
 		}
 	}
 
-	var log []sendRec
+	var log, firstLog []sendRec
 	var playErr error
 	var pan string
 	var total time.Duration
@@ -435,27 +443,51 @@ func (s *PlaySc) Run(env *core.Env, st *core.Stats) (vs []core.Violation) {
 		for i := range ports {
 			ports[i] = &simOut{id: i, cfg: s.Ports[i], log: &log, seq: &seq, start: &start}
 		}
-		tr := smf.ReadTracksFrom(bytes.NewReader(bf.Bytes()), s.Select...)
+		var tr *smf.TracksReader
+		if s.ViaFile && env != nil && env.T != nil {
+			path := tempDir(env) + "/play.mid"
+			if err := os.WriteFile(path, bf.Bytes(), 0o644); err != nil {
+				panic(err)
+			}
+			tr = smf.ReadTracks(path, s.Select...)
+			os.Remove(path)
+		} else {
+			tr = smf.ReadTracksFrom(bytes.NewReader(bf.Bytes()), s.Select...)
+		}
 		if tr.Error() != nil {
 			playErr = tr.Error()
 			return
 		}
-		start = time.Now()
-		if s.Mode == "play" {
-			playErr = tr.Play(ports[0])
-		} else {
-			m := map[int]drivers.Out{}
-			for _, p := range s.Map {
-				ports[p[1]].Open()
-				m[p[0]] = ports[p[1]]
-			}
-			if s.Default >= 0 {
-				ports[s.Default].Open()
-				m[-1] = ports[s.Default]
-			}
-			playErr = tr.MultiPlay(m)
+		rounds := 1
+		if s.Twice {
+			rounds = 2
 		}
-		total = time.Since(start)
+		for round := 0; round < rounds && playErr == nil; round++ {
+			if round == 1 {
+				firstLog = append([]sendRec{}, log...)
+				log = log[:0]
+				seq = 0
+				for _, p := range ports {
+					p.calls = 0
+				}
+			}
+			start = time.Now()
+			if s.Mode == "play" {
+				playErr = tr.Play(ports[0])
+			} else {
+				m := map[int]drivers.Out{}
+				for _, p := range s.Map {
+					ports[p[1]].Open()
+					m[p[0]] = ports[p[1]]
+				}
+				if s.Default >= 0 {
+					ports[s.Default].Open()
+					m[-1] = ports[s.Default]
+				}
+				playErr = tr.MultiPlay(m)
+			}
+			total += time.Since(start)
+		}
 	}
 	if env != nil && env.T != nil {
 		synctest.Test(env.T, body)
@@ -550,7 +582,20 @@ func (s *PlaySc) Run(env *core.Env, st *core.Stats) (vs []core.Violation) {
 		st.Sample(s)
 	}
 
-	// oracle
+	// oracle (applied to each playback on its own)
+	if s.Twice {
+		st.Probe("same-TracksReader-played-twice")
+		if v := s.checkPlayback(firstLog, exp, order, segments, desc, "first playback: "); v != nil {
+			return v
+		}
+		return s.checkPlayback(log, exp, order, segments, desc, "second playback of the same TracksReader: ")
+	}
+	return s.checkPlayback(log, exp, order, segments, desc, "")
+}
+
+func (s *PlaySc) checkPlayback(log []sendRec, exp map[string]*expPlay, order [][]*expPlay, segments int, desc func() string, which string) []core.Violation {
+	desc0 := desc
+	desc = func() string { return which + desc0() }
 	tol := big.NewRat(int64(segments), 1) // 1 microsecond per tempo segment
 	seen := map[string]bool{}
 	lastIdx := map[int]int{}
